@@ -112,6 +112,54 @@ func C04(run *report.Run) {
 			}
 		}
 	}
+	// sibling operations of one path item: the path item declares v, one operation overrides it with another
+	// type / requiredness, the other inherits it; each operation is judged against its own effective declaration
+	for _, in := range []string{"query", "header"} {
+		for _, kp := range []string{"int32", "string"} {
+			ko := map[string]string{"int32": "string", "string": "int32"}[kp]
+			for _, rp := range []bool{false, true} {
+				for _, ro := range []bool{false, true} {
+					for _, overrider := range []string{"GET", "DELETE"} {
+						s, pi, op := cells.Base()
+						tp, to := leafTypes[kp], leafTypes[ko]
+						pi.Params = []*spec.Param{{Name: "v", In: in, Required: rp, Schema: spec.TF(tp[0], tp[1])}}
+						other := &spec.Op{Method: "DELETE", Responses: []*spec.Response{{Status: "default", Desc: "d"}}}
+						pi.Ops = append(pi.Ops, other)
+						ov := &spec.Param{Name: "v", In: in, Required: ro, Schema: spec.TF(to[0], to[1])}
+						if overrider == "GET" {
+							op.Params = []*spec.Param{ov}
+						} else {
+							other.Params = []*spec.Param{ov}
+						}
+						for _, m := range []string{"GET", "DELETE"} {
+							pd := drv.ParamDecl{Name: "v", In: in, Required: rp, Type: tp[0], Format: tp[1]}
+							role := "inherits"
+							if m == overrider {
+								pd = drv.ParamDecl{Name: "v", In: in, Required: ro, Type: to[0], Format: to[1]}
+								role = "overrides"
+							}
+							id := fmt.Sprintf("sibling[in=%s,pathitem=%s/req=%v,override=%s/req=%v,by=%s,judged=%s]", in, kp, rp, ko, ro, overrider, m)
+							pl := &drv.ParamPayload{State: id, Method: m, Path: "/p", Params: []drv.ParamDecl{pd}}
+							states = append(states, BState{ID: id, Attrs: map[string]string{"fam": "sibling", "role": role, "by": overrider}, Gen: &genrun.Job{Spec: s.YAML()}, Prop: "C04", Payload: pl})
+						}
+					}
+				}
+			}
+		}
+	}
+	// declaration modifiers that must not change parsing: deprecated parameters
+	for _, in := range []string{"query", "header"} {
+		for _, k := range []string{"int32", "string"} {
+			for _, req := range []bool{false, true} {
+				s, _, op := cells.Base()
+				tf := leafTypes[k]
+				op.Params = []*spec.Param{{Name: "v", In: in, Required: req, Deprecated: true, Schema: spec.TF(tf[0], tf[1])}}
+				id := fmt.Sprintf("deprecated[in=%s,kind=%s,req=%v]", in, k, req)
+				pl := &drv.ParamPayload{State: id, Method: "GET", Path: "/p", Params: []drv.ParamDecl{{Name: "v", In: in, Required: req, Type: tf[0], Format: tf[1]}}}
+				states = append(states, BState{ID: id, Attrs: map[string]string{"fam": "deprecated"}, Gen: &genrun.Job{Spec: s.YAML()}, Prop: "C04", Payload: pl})
+			}
+		}
+	}
 	st := RunBatch(run, env, states, 250)
 	run.Cov["states"] = st.Healthy
 	run.Cov["transitions"] = st.Counters["requests"]
@@ -120,5 +168,5 @@ func C04(run *report.Run) {
 	run.Cov["masked_states"] = st.Masked
 	run.Cov["masked_why"] = st.MaskedWhy
 	run.Cov["enumerated_states"] = st.States
-	run.Cov["rule"] = "state = one parameter declaration cell (13 leaf kinds × {query scalar, query array, header} × required × {inline, schema $ref, alias, component parameter} × {operation, path-item, operation overriding a differently typed path-item parameter}) or a pair of parameters; transition = one request from the type's lexeme table × cardinality {absent, one, two, good+bad, bad+good}; oracle = reference lexer"
+	run.Cov["rule"] = "state = one parameter declaration cell (13 leaf kinds × {query scalar, query array, header} × required × {inline, schema $ref, alias, component parameter} × {operation, path-item, operation overriding a differently typed path-item parameter}) or a pair of parameters, or two sibling operations of which one overrides a path-item parameter and the other inherits it, or a deprecated parameter; transition = one request from the type's lexeme table × cardinality {absent, one, two, good+bad, bad+good}; oracle = reference lexer"
 }
